@@ -112,6 +112,19 @@ class Routes:
             self.cmp("Quantity.Convert(ndarray)", q.Convert(np.array(xs, dtype=float), v), ref, case, au, av, xs, np.ndarray)
 
         def db_routes():
+            # the 'Unknown' quantity type accepts any unit label and returns the value as it is (by design);
+            # asking it about this very unit pair first must not change what the pair means for its real type
+            self.seen_routes.add("UnitDatabase.Convert('Unknown',u,v,x) first")
+            try:
+                if "Unknown" not in db.quantity_types:
+                    raise LookupError
+                uk = db.Convert("Unknown", u, v, float(x0))
+                if uk != float(x0):
+                    self.bad("UnitDatabase.Convert('Unknown',u,v,x)", "value-not-returned-unchanged", case, {"got": uk, "x": x0})
+            except LookupError:
+                pass  # a database without the 'Unknown' quantity type (FillSimple)
+            except Exception as e:
+                self.bad("UnitDatabase.Convert('Unknown',u,v,x)", "raised:%s" % type(e).__name__, case, {"error": str(e)[:160]})
             self.cmp("UnitDatabase.Convert(category name)", db.Convert(c, u, v, float(x0)), [r0], case, au, av, [x0])
             self.cmp("UnitDatabase.Convert(list)", db.Convert(qt, u, v, list(xs)), ref, case, au, av, xs, list)
             self.cmp("UnitDatabase.Convert(tuple)", db.Convert(qt, u, v, tuple(xs)), ref, case, au, av, xs, tuple)
@@ -145,6 +158,21 @@ class Routes:
                 vals = (list(xs) * (n // max(1, len(xs)) + 1))[:n]
                 rr = (list(ref) * (n // max(1, len(ref)) + 1))[:n]
                 self.cmp("Array[list].GetValues", Array(c, list(vals), u).GetValues(v), rr, case, au, av, vals, list)
+                if n and u != v:
+                    # ask, let the caller overwrite what it was given, ask again (list and ndarray containers)
+                    for kind, mk in (("list", list), ("ndarray", lambda z: np.array(z, dtype=float))):
+                        arr = Array(c, mk(vals), u)
+                        first = arr.GetValues(v)
+                        if first is arr.GetValues():
+                            continue  # an identity conversion may hand out the stored container itself (like GetValues())
+                        try:
+                            if isinstance(first, list):
+                                first[:] = [0.0] * len(first)
+                            else:
+                                first.fill(0.0)
+                        except Exception:
+                            pass
+                        self.cmp("Array[%s].GetValues twice (first result overwritten by the caller)" % kind, arr.GetValues(v), rr, case, au, av, vals)
                 self.cmp("Array[tuple].GetValues", Array(c, tuple(vals), u).GetValues(v), rr, case, au, av, vals, tuple)
                 self.cmp("Array[ndarray].GetValues", Array(c, np.array(vals, dtype=float), u).GetValues(v), rr, case, au, av, vals, np.ndarray)
                 if n:
